@@ -3,7 +3,7 @@ CONSTANTS Conns <- C13
   I = 1
   TO = 1
   Late = 0
-  MaxNow = 3
+  MaxNow = 2
   Strict = FALSE
   D = 0
 INIT Init
